@@ -2,6 +2,7 @@ SPECIFICATION TraceSpec
 CONSTANTS
     Paths = {"p", "q", "r", "o"}
     StorePaths = {"o"}
+    LinkPaths = {"r"}
     Contents = {"c1", "c2", "c3"}
     Size <- SizeDef
     Algs = {"md5", "sha256"}
